@@ -1,4 +1,4 @@
-// C07 correspondence harness (uses harness/ceq_tree.h, CEQ_TREE_VERSION 5).
+// C07 correspondence harness (uses harness/ceq_tree.h, CEQ_TREE_VERSION 6).
 // For every case: random tree + ONE constraint of one built-in type on random bodies/mobilities, random VIOLATED state
 // (q,u arbitrary), arbitrary udot.
 //
@@ -74,7 +74,12 @@ static void implChecks(Model& M, const ConsInfo& ci, vh::Rng& g, long caseNo, co
     vh::I("chk").s(T).i(caseNo).emit();
     vh::O("chk").i(1).emit();
     vh::D("chk." + T + "." + ci.cls + "." + icls);
-    const std::string K = T + "." + icls;   // key prefix: <Type>.<input class: violated | onManifold>
+    // key prefix: <Type>.<input class: violated | onManifold>
+    const std::string K = T + "." + icls;
+    // trees containing a LineOrientation/FreeLine mobilizer: q (3 Euler angles) can express a twist about the line that no u
+    // generates, so d perr/dq has a component that Pq = P*N^+ cannot have: the pq_fd predicate gets the single key `line.pq_fd`
+    const bool lineTree = hasLineMobilizer(M);
+    if (lineTree) vh::D("chk.lineTree." + icls);
 
     Errs e0 = errorsAt(M, ci, s, udot);
     const Vector qdot = s.getQDot();
@@ -125,7 +130,7 @@ static void implChecks(Model& M, const ConsInfo& ci, vh::Rng& g, long caseNo, co
         Matrix PqtT = ~Pqt;
         // observed outside the property: calcPqTranspose != ~calcPq when a constrained q is a quaternion component
         if (!(relErrM(Pq, PqtT) <= 1e-10)) vh::D("obs.pqt_ne_pq_transpose." + T);
-        vh::P("pq_fd", K + ".pq_fd", wfd, 1e-6);
+        vh::P("pq_fd", lineTree ? std::string("line.pq_fd") : K + ".pq_fd", wfd, 1e-6);
         // Pq N == P (first mp rows of G)
         double wn = 0;
         for (int j = 0; j < nu; ++j) { Vector ej(nu, 0.0); ej[j] = 1; Vector Nej; matter.multiplyByN(s, false, ej, Nej); Vector c = Pq * Nej; Vector gc = G(j)(0, mp); wn = std::max(wn, relErr(c, gc)); }
@@ -280,6 +285,8 @@ static void oneCase(vh::Rng& g, long caseNo, int type, bool wantModel, bool want
     buildTree(M, g, 2 + g.below(5), idN ? qdotIsUPalette() : fullPalette());
     ConsInfo ci;
     if (!addConstraint(M, g, type, g.below(4), ci, idN)) return;
+    // trees with LineOrientation/FreeLine are always modelled with Euler angles here: in quaternion mode those mobilizers'
+    // own q-level kinematics is defective (known findings of C03/C04) which is not C07's subject
     finishTopology(M, g, !idN);
     randomState(M, g);
     M.state.updTime() = g.range(0.0, 2.0);
@@ -294,6 +301,7 @@ static void oneCase(vh::Rng& g, long caseNo, int type, bool wantModel, bool want
         std::fprintf(stderr, "\n");
     }
     if (wantModel && modelled(type)) modelRecord(M, ci, udot, lambda);
+    if (wantChecks) tagBodies(M);
     if (wantChecks) implChecks(M, ci, g, caseNo, udot, lambda, "violated");
     if (wantChecks && mp + mv > 0) {
         // second input class: the same system projected onto the position and velocity manifolds (any method of
